@@ -22,18 +22,27 @@ def gen_case(rng, kills, nested, nframes=None):
     n = rng.randint(1, 5)
     nframes = nframes or rng.randint(5, 20)
     # 'long' generators cannot finish within the trace (more steps than
-    # frames), so they may be restarted at any time; a 'short' one finishes,
-    # and start(short) occurs at most once in the whole case (restarting an
-    # exhausted generator is outside the domain, see Spec.wf_b)
-    longs = [g for g in range(n) if rng.random() < 0.6]
-    shorts = [g for g in range(n) if g not in longs]
+    # frames), so they may be restarted at any time; a 'mid' one (4-8 steps)
+    # is restarted only between frames and only as long as it cannot have
+    # finished yet; a 'short' one finishes, and start(short) occurs at most
+    # once in the whole case (restarting an exhausted generator is outside
+    # the domain, see Spec.wf_b)
+    kind = {}
+    for g in range(n):
+        r = rng.random()
+        kind[g] = 'long' if r < 0.45 else ('mid' if r < 0.65 and kills > 0 else 'short')
+    longs = [g for g in range(n) if kind[g] == 'long']
+    mids = {g: rng.randint(4, 8) for g in range(n) if kind[g] == 'mid'}
+    shorts = [g for g in range(n) if kind[g] == 'short']
     started_once = set()
 
-    def target(for_start):
+    def target(for_start, frame=None):
         if rng.random() < 0.04 and kills > 0:
             return rng.choice(NONGEN)
         if for_start:
             cands = longs + [g for g in shorts if g not in started_once]
+            if frame is not None:
+                cands += [g for g, ln in mids.items() if frame < ln] * 2
             if not cands:
                 return None
             g = rng.choice(cands)
@@ -70,7 +79,7 @@ def gen_case(rng, kills, nested, nframes=None):
     dts = [0, 4, 8, 8] if tight else DTS
     scripts = []
     for g in range(n):
-        nsteps = (nframes + 2) if g in longs else rng.randint(1, 6)
+        nsteps = (nframes + 2) if g in longs else (mids[g] if g in mids else rng.randint(1, 6))
         steps = []
         for k in range(nsteps):
             acts = []
@@ -99,12 +108,12 @@ def gen_case(rng, kills, nested, nframes=None):
             if r < 0.25:
                 g = target(False)
                 ops.append(['kill', g])
-                if g in longs and rng.random() < 0.7:
+                if (g in longs or (g in mids and frame < mids[g])) and rng.random() < 0.7:
                     if rng.random() < 0.3:
                         ops.append(['state', g])
                     ops.append(['start', g])
             elif r < 0.45:
-                g = target(True)
+                g = target(True, frame)
                 if g is not None:
                     ops.append(['start', g])
             elif r < 0.6:
